@@ -55,7 +55,12 @@ pub fn g_list<T>(xs: &[T], f: impl Fn(&T) -> String) -> String {
     s
 }
 pub fn g_nat(n: usize) -> String {
-    format!("{}%nat", n)
+    // large unary numerals are expensive to parse and type-check: they are written as conversions of binary numbers
+    if n < 256 {
+        format!("{}%nat", n)
+    } else {
+        format!("(N.to_nat {}%N)", n)
+    }
 }
 pub fn g_natlist(xs: &[usize]) -> String {
     g_list(xs, |x| g_nat(*x))
